@@ -27,6 +27,16 @@ WellFormedAxis(a, o, zero, hm, hp, t) ==
 WellFormed(r) == /\ Len(r.axes) = r.dim /\ Len(r.origin) = r.dim /\ Len(r.trunc) = r.dim
                  /\ \A d \in 1..r.dim : WellFormedAxis(r.axes[d], r.origin[d], r.zero, r.hm, r.hp, r.trunc[d])
                  /\ r.hq = 1
+\* the grid's own neighbour helpers (left_point / right_point / outside) agree with its axes: the cells of every state
+\* are built from them (C01), also after refinements
+Max2(a, b) == IF a >= b THEN a ELSE b
+Min2(a, b) == IF a <= b THEN a ELSE b
+NeighbourHelpers(r) ==
+    /\ \A d \in 1..r.dim : LET a == r.axes[d] n == Len(r.nbrs.left[d]) IN
+          /\ Len(r.nbrs.right[d]) = n /\ n >= 1
+          /\ \A k \in 1..n : r.nbrs.left[d][k] = a[Max2(k - 1, 1)] /\ r.nbrs.right[d][k] = a[Min2(k + 1, Len(a))]
+    /\ \A k \in 1..Len(r.nbrs.inside) : r.nbrs.inside[k] = 1
+    /\ \A k \in 1..Len(r.nbrs.beyond) : r.nbrs.beyond[k] = 1
 NestedAxis(old, new, mids) ==
     /\ Len(new) = 2 * Len(old) - 1
     /\ \A i \in 1..Len(old) : new[2 * i - 1] = old[i]
@@ -58,14 +68,14 @@ HasField(r, f) == f \in DOMAIN r
 
 ConstructStep ==
     /\ More /\ E.e = "Construct"
-    /\ Judge(<< <<"WellFormed", WellFormed(E)>>,
+    /\ Judge(<< <<"WellFormed", WellFormed(E) /\ NeighbourHelpers(E)>>,
                 <<"TailProbability", ~HasField(E, "tailq") \/ TailOK(E)>>,
                 <<"StepProbability", ~HasField(E, "stepq") \/ StepOK(E)>> >>)
     /\ cur' = E /\ ln' = ln + 1 /\ UNCHANGED <<tid, fin>>
 
 RefineStep ==
     /\ More /\ E.e = "Refine" /\ cur # <<>>
-    /\ Judge(<< <<"WellFormed", WellFormed(E)>>, <<"Nesting", Nested(cur, E)>> >>)
+    /\ Judge(<< <<"WellFormed", WellFormed(E) /\ NeighbourHelpers(E)>>, <<"Nesting", Nested(cur, E)>> >>)
     /\ cur' = E /\ ln' = ln + 1 /\ UNCHANGED <<tid, fin>>
 
 TimeStep ==
